@@ -210,7 +210,7 @@ pub fn run(tier: &Tier) -> i32 {
     let c_o = Counters::default();
     let rep = &rep_o;
     let c = &c_o;
-    let cat = catalog(&CatOpts { disps: if tier.thorough { vec![9, -9, 0x7FFF, -0x8000, 0xFFF7] } else { vec![9, -9] }, all_regs: false });
+    let cat = catalog(&CatOpts { disps: if tier.thorough { vec![9, -9, 0x7FFF, -0x8000, 0xFFF7] } else { vec![9, -9] }, all_regs: tier.thorough });
     let respellings = AtomicU64::new(0);
     let semantic = AtomicU64::new(0);
     cat.par_iter().for_each(|i| {
